@@ -31,11 +31,14 @@ type C06Config struct {
 	Mutate     bool
 	// BadRate scales the probability of deliberate faults (dangling uses, sibling clashes).
 	BadRate float64
+	// Extras: nodes, groupings and uses statements carry if-feature / when / status / reference /
+	// description and extension statements (Entry.Extra and Entry.Exts of the copies, defect D62).
+	Extras bool
 }
 
 // C06Default is the configuration the runner uses.
 func C06Default() C06Config {
-	return C06Config{MaxModules: 3, Submodules: true, Mutate: true, BadRate: 0.05}
+	return C06Config{MaxModules: 3, Submodules: true, Mutate: true, BadRate: 0.05, Extras: true}
 }
 
 // C06UseRef is one `uses` statement and the grouping it must bind to.
@@ -72,6 +75,10 @@ type C06Rec struct {
 	Mand     string   `json:"mand"`
 	Cfg      string   `json:"cfg"`
 	RPC      bool     `json:"rpc,omitempty"`
+	// Extra: Entry.Extra restricted to C06ExtraKeys (argument texts, in order); Exts: Entry.Exts as
+	// "keyword argument".
+	Extra map[string][]string `json:"extra,omitempty"`
+	Exts  []string            `json:"exts,omitempty"`
 }
 
 // C06Late is a module loaded after the first Process: it uses a grouping once more.
@@ -93,8 +100,13 @@ type C06Case struct {
 	Late               *C06Late
 	MutKinds           []string // what the mutated variant applies
 	Groupings          int
-	MaxNest            int // deepest chain of nested uses
-	Faulty             bool
+	// ExtrasNodes: nodes of the expansion with a non-empty Extra / Exts prediction; ExtrasUses: uses
+	// statements with extras of their own; CapSensitive: copied nodes with exactly three own values
+	// under a key (or three own extensions) to which a uses statement adds a fourth (Go's append
+	// leaves one spare slot after three single appends).
+	ExtrasNodes, ExtrasUses, CapSensitive int
+	MaxNest                               int // deepest chain of nested uses
+	Faulty                                bool
 }
 
 var c06NodeNames = []string{"x", "y", "z", "w", "v", "t"}
@@ -445,6 +457,7 @@ func (g *c06) placeUses(at *Node, ref string, allowClash bool) *Node {
 	}
 	u := g.add(at, "uses", ref)
 	u.Uses = d
+	g.decorate(u, 0.6)
 	return u
 }
 
@@ -500,6 +513,7 @@ func (g *c06) leaf(at *Node, name string, ctx c06Ctx) {
 	if g.chance(0.1) {
 		g.add(l, "description", "some text")
 	}
+	g.decorate(l, 0.35)
 }
 
 func (g *c06) listAttrs(n *Node) {
@@ -511,6 +525,55 @@ func (g *c06) listAttrs(n *Node) {
 	}
 	if g.chance(0.2) {
 		g.add(n, "ordered-by", g.pick([]string{"user", "system"}))
+	}
+}
+
+// extraCount picks how many if-feature / extension statements a statement gets: three is the case
+// in which Go's append leaves exactly one spare slot in the backing array (1, 2, 4).
+func (g *c06) extraCount() int { return []int{0, 0, 1, 2, 3, 3, 3, 4}[g.r.Intn(8)] }
+
+// decorate gives statement n (fully built) substatements that ToEntry stores in Entry.Extra and
+// Entry.Exts, as far as the statement's AST type accepts them.
+func (g *c06) decorate(n *Node, p float64) {
+	if !g.cfg.Extras || !g.chance(p) {
+		return
+	}
+	var feat, when, sr, desc bool
+	switch n.Kw {
+	case "leaf", "leaf-list", "container", "list", "choice", "case", "anydata", "anyxml":
+		feat, when, sr = true, true, true
+	case "notification", "rpc", "action":
+		feat, sr = true, true
+	case "grouping":
+		sr = true
+	case "uses":
+		feat, when, sr, desc = true, true, true, true
+	case "input", "output":
+	default:
+		return
+	}
+	g.seq++
+	tag := fmt.Sprint(g.seq)
+	if feat {
+		for i, k := 0, g.extraCount(); i < k; i++ {
+			g.add(n, "if-feature", fmt.Sprintf("f%d", 1+(i+g.seq)%4))
+		}
+	}
+	if when && g.chance(0.35) {
+		g.add(n, "when", "w"+tag)
+	}
+	if sr && g.chance(0.35) {
+		g.add(n, "status", g.pick([]string{"current", "deprecated", "obsolete"}))
+	}
+	if sr && g.chance(0.3) {
+		g.add(n, "reference", "r"+tag)
+	}
+	if desc && g.chance(0.3) && declared2(n, "description") == nil {
+		g.add(n, "description", "uses text "+tag)
+	}
+	pfx := g.root(n).Prefix
+	for i, k := 0, g.extraCount(); i < k; i++ {
+		g.add(n, pfx+":e1", fmt.Sprintf("x%s-%d", tag, i))
 	}
 }
 
@@ -544,6 +607,7 @@ func (g *c06) fillGrouping(gr *Node, depth int) {
 	if len(contributed(gr, 0)) == 0 {
 		g.leaf(gr, g.fresh(gr), c06Ctx{})
 	}
+	g.decorate(gr, 0.3)
 	g.done[gr] = true
 }
 
@@ -572,7 +636,9 @@ func (g *c06) operation(at *Node, kw, name string, depth int) {
 	if g.chance(0.6) {
 		out := g.add(r, "output", "")
 		g.fill(out, depth+1, c06Ctx{inOps: true}, 1+g.r.Intn(2))
+		g.decorate(out, 0.15)
 	}
+	g.decorate(r, 0.3)
 }
 
 const c06MaxDepth = 3
@@ -621,6 +687,7 @@ func (g *c06) fill(at *Node, depth int, ctx c06Ctx, n int) {
 					g.add(ll, "default", "b")
 				}
 			}
+			g.decorate(ll, 0.4)
 		case k <= 5:
 			if depth >= c06MaxDepth {
 				g.leaf(at, name, ctx)
@@ -638,7 +705,9 @@ func (g *c06) fill(at *Node, depth int, ctx c06Ctx, n int) {
 			if !ctx.inOps && g.chance(0.08) {
 				nn := g.add(c, "notification", g.fresh(c))
 				g.fill(nn, depth+2, c06Ctx{inOps: true}, 1+g.r.Intn(2))
+				g.decorate(nn, 0.3)
 			}
+			g.decorate(c, 0.35)
 		case k == 6:
 			if depth >= c06MaxDepth {
 				g.leaf(at, name, ctx)
@@ -654,6 +723,7 @@ func (g *c06) fill(at *Node, depth int, ctx c06Ctx, n int) {
 			if !ctx.inOps && g.chance(0.1) {
 				g.operation(l, "action", g.fresh(l), depth+1)
 			}
+			g.decorate(l, 0.3)
 		case k == 7:
 			if depth >= c06MaxDepth || at.Kw == "choice" {
 				g.leaf(at, name, ctx)
@@ -668,11 +738,13 @@ func (g *c06) fill(at *Node, depth int, ctx c06Ctx, n int) {
 				case g.chance(0.5):
 					cs := g.add(ch, "case", cn)
 					g.fill(cs, depth+2, ctx, 1+g.r.Intn(2))
+					g.decorate(cs, 0.3)
 				case g.chance(0.6):
 					g.leaf(ch, cn, ctx)
 				default:
 					c := g.add(ch, "container", cn)
 					g.fill(c, depth+2, ctx, g.r.Intn(3))
+					g.decorate(c, 0.3)
 				}
 			}
 			if g.chance(0.3) {
@@ -681,11 +753,13 @@ func (g *c06) fill(at *Node, depth int, ctx c06Ctx, n int) {
 			if g.chance(0.15) {
 				g.add(ch, "mandatory", "true")
 			}
+			g.decorate(ch, 0.3)
 		case k == 8:
 			ax := g.add(at, g.pick([]string{"anydata", "anyxml"}), name)
 			if g.chance(0.3) {
 				g.add(ax, "mandatory", "true")
 			}
+			g.decorate(ax, 0.3)
 		case k == 12:
 			if ctx.inOps || top || depth >= c06MaxDepth || at.Kw == "case" || at.Kw == "choice" {
 				g.leaf(at, name, ctx)
@@ -816,6 +890,17 @@ func C06Generate(r *rand.Rand, cfg C06Config) *C06Case {
 			g.add(f.Body, "identity", "idn")
 		}
 	}
+	if cfg.Extras {
+		for _, m := range set.Mods {
+			if m.Sub {
+				continue
+			}
+			g.add(g.add(m.Body, "extension", "e1"), "argument", "a")
+			for _, f := range []string{"f1", "f2", "f3", "f4"} {
+				g.add(m.Body, "feature", f)
+			}
+		}
+	}
 	// top-level grouping stubs of every file, then their bodies in a random order
 	var stubs []*Node
 	for _, m := range set.Mods {
@@ -852,6 +937,7 @@ func C06Generate(r *rand.Rand, cfg C06Config) *C06Case {
 			g.usedOf(m.Body)["n"+tag] = true
 			g.localDefs(nn, 1, c06Ctx{inOps: true}, 0.1)
 			g.fill(nn, 1, c06Ctx{inOps: true}, 1+r.Intn(2))
+			g.decorate(nn, 0.3)
 		}
 	}
 	// every grouping that can be reached gets at least two instances
@@ -1028,12 +1114,14 @@ func c06TreeFiles(m *Module) []*Module {
 }
 
 type c06Visit struct {
-	node  func(mod *Module, steps []c06Step, n *Node, via []*Node)
+	// pend: the uses statements whose extras and extensions merge appends to this node (the node is
+	// a direct child of their grouping's expansion), innermost first
+	node  func(mod *Module, steps []c06Step, n *Node, via []*Node, pend []*Node)
 	site  func(mod *Module, steps []c06Step, u, gr *Node, nested bool)
 	depth int
 }
 
-func (g *c06) expand(v *c06Visit, mod *Module, n *Node, cur []c06Step, parentKw string, via []*Node, depth int) {
+func (g *c06) expand(v *c06Visit, mod *Module, n *Node, cur []c06Step, parentKw string, via []*Node, pend []*Node, depth int) {
 	if depth > 60 {
 		return
 	}
@@ -1046,14 +1134,14 @@ func (g *c06) expand(v *c06Visit, mod *Module, n *Node, cur []c06Step, parentKw 
 			}
 			st := append(append([]c06Step{}, cur...), c06Step{Name: name, Implicit: parentKw == "choice" && c.Kw != "case"})
 			if v.node != nil {
-				v.node(mod, st, c, via)
+				v.node(mod, st, c, via, pend)
 			}
-			g.expand(v, mod, c, st, c.Kw, via, depth+1)
+			g.expand(v, mod, c, st, c.Kw, via, nil, depth+1)
 		case c.Kw == "uses" && c.Uses != nil:
 			if v.site != nil {
 				v.site(mod, cur, c, c.Uses, len(via) > 0)
 			}
-			g.expand(v, mod, c.Uses, cur, parentKw, append(append([]*Node{}, via...), c), depth+1)
+			g.expand(v, mod, c.Uses, cur, parentKw, append(append([]*Node{}, via...), c), append([]*Node{c}, pend...), depth+1)
 		}
 	}
 }
@@ -1065,7 +1153,7 @@ func (g *c06) walkSites(f func(mod *Module, steps []c06Step, u, gr *Node, nested
 			continue
 		}
 		for _, x := range c06TreeFiles(m) {
-			g.expand(v, m, x.Body, nil, "module", nil, 0)
+			g.expand(v, m, x.Body, nil, "module", nil, nil, 0)
 		}
 	}
 }
@@ -1099,7 +1187,7 @@ func argOf(n *Node, kw, dflt string) string {
 	return dflt
 }
 
-func (g *c06) rec(mod *Module, steps []c06Step, n *Node) C06Rec {
+func (g *c06) rec(mod *Module, steps []c06Step, n *Node, pend []*Node) C06Rec {
 	r := C06Rec{Path: "/" + mod.Name + "/" + strings.Join(stepsPath(steps, true), "/"), Kind: kindOf(n.Kw), LA: "-",
 		Mand: "unset", Cfg: "unset"}
 	switch n.Kw {
@@ -1144,12 +1232,67 @@ func (g *c06) rec(mod *Module, steps []c06Step, n *Node) C06Rec {
 		}
 		r.LA = min + ":" + max + ":" + u
 	}
+	r.Extra, r.Exts = extrasOf(n, pend)
 	return r
+}
+
+// C06ExtraKeys are the keys of Entry.Extra the reference expansion predicts.
+var C06ExtraKeys = []string{"if-feature", "when", "status", "reference"}
+
+// ownExtras lists what ToEntry stores for statement n itself: per key the arguments of its
+// substatements in order, and its extension statements (a leaf-list is converted through a
+// synthetic leaf and again as itself: its extensions are recorded twice).
+func ownExtras(n *Node) (map[string][]string, []string) {
+	extra := map[string][]string{}
+	var exts []string
+	for _, c := range n.Kids {
+		for _, k := range C06ExtraKeys {
+			if c.Kw == k {
+				extra[k] = append(extra[k], c.Arg)
+			}
+		}
+		if strings.Contains(c.Kw, ":") {
+			exts = append(exts, c.Kw+" "+c.Arg)
+		}
+	}
+	if n.Kw == "leaf-list" {
+		exts = append(append([]string{}, exts...), exts...)
+	}
+	return extra, exts
+}
+
+// extrasOf predicts Extra and Exts of the entry of n reached through the uses statements pend
+// (innermost first): merge appends, per uses, the grouping entry's own values (which the uses
+// case of ToEntry extended by those of the uses statement) to every direct child.
+func extrasOf(n *Node, pend []*Node) (map[string][]string, []string) {
+	extra, exts := ownExtras(n)
+	for _, u := range pend {
+		for _, src := range []*Node{u.Uses, u} {
+			if src == nil {
+				continue
+			}
+			e, x := ownExtras(src)
+			for _, k := range C06ExtraKeys {
+				extra[k] = append(extra[k], e[k]...)
+			}
+			exts = append(exts, x...)
+		}
+	}
+	for k, v := range extra {
+		if len(v) == 0 {
+			delete(extra, k)
+		}
+	}
+	if len(extra) == 0 {
+		extra = nil
+	}
+	return extra, exts
 }
 
 // collect fills the generator knowledge of c from the current trees.
 func (g *c06) collect(c *C06Case) {
 	c.Uses, c.Sites, c.Expect = nil, nil, nil
+	c.ExtrasNodes, c.ExtrasUses, c.CapSensitive = 0, 0, 0
 	// every uses statement, also those inside groupings
 	var walk func(n *Node)
 	ng := 0
@@ -1163,6 +1306,9 @@ func (g *c06) collect(c *C06Case) {
 			}
 			if k.Kw == "uses" {
 				d, site := g.resolve(n, "grouping", k.Arg)
+				if len(k.Kids) > 0 {
+					c.ExtrasUses++
+				}
 				ref := C06UseRef{Loc: g.pos[k], Ref: k.Arg, Site: site}
 				if d != nil {
 					ref.GLoc = g.pos[d]
@@ -1178,7 +1324,7 @@ func (g *c06) collect(c *C06Case) {
 	c.Groupings = ng
 	seenImplicit := map[string]bool{}
 	v := &c06Visit{
-		node: func(mod *Module, steps []c06Step, n *Node, via []*Node) {
+		node: func(mod *Module, steps []c06Step, n *Node, via []*Node, pend []*Node) {
 			last := steps[len(steps)-1]
 			if last.Implicit {
 				// the implicit case above a shorthand choice member
@@ -1189,7 +1335,15 @@ func (g *c06) collect(c *C06Case) {
 					c.Expect = append(c.Expect, C06Rec{Path: p, Kind: "Case", LA: "-", Mand: "unset", Cfg: cfg})
 				}
 			}
-			c.Expect = append(c.Expect, g.rec(mod, steps, n))
+			r := g.rec(mod, steps, n, pend)
+			c.Expect = append(c.Expect, r)
+			if len(r.Extra) > 0 || len(r.Exts) > 0 {
+				c.ExtrasNodes++
+			}
+			oe, ox := ownExtras(n)
+			if (len(oe["if-feature"]) == 3 && len(r.Extra["if-feature"]) > 3) || (len(ox) == 3 && len(r.Exts) > 3) {
+				c.CapSensitive++
+			}
 		},
 		site: func(mod *Module, steps []c06Step, u, gr *Node, nested bool) {
 			c.Sites = append(c.Sites, C06Site{Module: mod.Name, Path: stepsPath(steps, true), GLoc: g.pos[gr], GName: gr.Arg,
@@ -1202,7 +1356,7 @@ func (g *c06) collect(c *C06Case) {
 		}
 		c.Expect = append(c.Expect, C06Rec{Path: "/" + m.Name, Kind: "Directory", LA: "-", Mand: "unset", Cfg: "unset"})
 		for _, x := range c06TreeFiles(m) {
-			g.expand(v, m, x.Body, nil, "module", nil, 0)
+			g.expand(v, m, x.Body, nil, "module", nil, nil, 0)
 		}
 	}
 	sort.SliceStable(c.Expect, func(i, j int) bool { return c.Expect[i].Path < c.Expect[j].Path })
@@ -1324,7 +1478,7 @@ func (g *c06) mutate(c *C06Case) {
 	}
 	// all nodes of all trees, by path
 	var nodes []c06Target
-	v := &c06Visit{node: func(mod *Module, steps []c06Step, n *Node, via []*Node) {
+	v := &c06Visit{node: func(mod *Module, steps []c06Step, n *Node, via []*Node, pend []*Node) {
 		nodes = append(nodes, c06Target{mod, steps, n})
 	}}
 	for _, m := range g.set.Mods {
@@ -1332,7 +1486,7 @@ func (g *c06) mutate(c *C06Case) {
 			continue
 		}
 		for _, x := range c06TreeFiles(m) {
-			g.expand(v, m, x.Body, nil, "module", nil, 0)
+			g.expand(v, m, x.Body, nil, "module", nil, nil, 0)
 		}
 	}
 	extra := map[*Module][]*Node{}
